@@ -331,6 +331,12 @@ func (w *ResponseWriter) WriteMsg(m *dns.Msg) error {
 			opt.Hdr.Ttl = 0
 		}
 
+		// A message holds one OPT (RFC 6891 §6.1.1) and IsEdns0 settled on
+		// the last one. Any other OPT in a relayed reply is still the other
+		// hop's, options and all, and the section goes to the client as a
+		// whole — so the record rebuilt above has to be the only one.
+		m.Extra = dropOtherOPTs(m.Extra, opt)
+
 		// Set common OPT parameters
 		opt.SetDo(w.do)
 		opt.SetUDPSize(w.respUDPSize)
@@ -426,6 +432,30 @@ func keepOPTOnly(extra []dns.RR) []dns.RR {
 		}
 	}
 	return nil
+}
+
+// dropOtherOPTs returns extra without any OPT record other than keep. The
+// ordinary single-OPT reply is returned untouched; otherwise a fresh slice,
+// since the message's sections may still be referenced by the layers below.
+func dropOtherOPTs(extra []dns.RR, keep *dns.OPT) []dns.RR {
+	other := false
+	for _, rr := range extra {
+		if opt, ok := rr.(*dns.OPT); ok && opt != keep {
+			other = true
+			break
+		}
+	}
+	if !other {
+		return extra
+	}
+	kept := make([]dns.RR, 0, len(extra)-1)
+	for _, rr := range extra {
+		if opt, ok := rr.(*dns.OPT); ok && opt != keep {
+			continue
+		}
+		kept = append(kept, rr)
+	}
+	return kept
 }
 
 // stripECS returns opts with every EDNS0_SUBNET entry removed.
